@@ -10,6 +10,7 @@
 -/
 import XC.Proofs.C32Hist
 import XC.Proofs.C32Ev
+import XC.Model.C32_Wire
 namespace XC.C32
 
 def lastKey (evs : List Ev) : KeyAcc := scanKey none evs
@@ -135,6 +136,56 @@ theorem no_success_on_empty (cfg : Cfg) : (run cfg []).2 = .authErr := by
   unfold run loop
   split <;> rfl
 
+/-! ## what the signature covers -/
+
+theorem natToBE4_inj {a b : Nat} (ha : a < 2 ^ 32) (hb : b < 2 ^ 32) (h : natToBE 4 a = natToBE 4 b) : a = b := by
+  unfold natToBE at h
+  have h' : natToLE 4 a = natToLE 4 b := by
+    have := congrArg List.reverse h
+    simpa using this
+  have := congrArg natOfLE h'
+  rw [natOfLE_natToLE, natOfLE_natToLE] at this
+  have e : (256 : Nat) ^ 4 = 2 ^ 32 := by decide
+  rw [e, Nat.mod_eq_of_lt ha, Nat.mod_eq_of_lt hb] at this
+  exact this
+
+theorem natToBE_length (n v : Nat) : (natToBE n v).length = n := by
+  simp [natToBE, natToLE_length]
+
+/-- a length-prefixed string can be split off unambiguously -/
+theorem sshStr_cancel {b1 b2 r1 r2 : Bytes} (h1 : b1.length < 2 ^ 32) (h2 : b2.length < 2 ^ 32)
+    (h : sshStr b1 ++ r1 = sshStr b2 ++ r2) : b1 = b2 ∧ r1 = r2 := by
+  unfold sshStr at h
+  rw [List.append_assoc, List.append_assoc] at h
+  have hl := List.append_inj h (by simp [natToBE_length])
+  have hlen := natToBE4_inj h1 h2 hl.1
+  have := List.append_inj hl.2 hlen
+  exact this
+
+/-- **signedData_injective.** The bytes covered by a publickey signature determine the session
+    identifier, the user, the service, the method, the algorithm name and the key blob: a signature
+    valid for one (session, request) is a signature over no other.  (Field lengths < 2^32, as on the wire.) -/
+theorem signedData_injective {s1 u1 v1 m1 a1 k1 s2 u2 v2 m2 a2 k2 : Bytes}
+    (hs1 : s1.length < 2 ^ 32) (hs2 : s2.length < 2 ^ 32) (hu1 : u1.length < 2 ^ 32) (hu2 : u2.length < 2 ^ 32)
+    (hv1 : v1.length < 2 ^ 32) (hv2 : v2.length < 2 ^ 32) (hm1 : m1.length < 2 ^ 32) (hm2 : m2.length < 2 ^ 32)
+    (ha1 : a1.length < 2 ^ 32) (ha2 : a2.length < 2 ^ 32) (hk1 : k1.length < 2 ^ 32) (hk2 : k2.length < 2 ^ 32)
+    (h : signedData s1 u1 v1 m1 a1 k1 = signedData s2 u2 v2 m2 a2 k2) :
+    s1 = s2 ∧ u1 = u2 ∧ v1 = v2 ∧ m1 = m2 ∧ a1 = a2 ∧ k1 = k2 := by
+  unfold signedData at h
+  obtain ⟨e1, h⟩ := sshStr_cancel hs1 hs2 h
+  simp only [List.cons.injEq, true_and] at h
+  obtain ⟨e2, h⟩ := sshStr_cancel hu1 hu2 h
+  obtain ⟨e3, h⟩ := sshStr_cancel hv1 hv2 h
+  obtain ⟨e4, h⟩ := sshStr_cancel hm1 hm2 h
+  simp only [List.cons.injEq, true_and] at h
+  obtain ⟨e5, h⟩ := sshStr_cancel ha1 ha2 h
+  have h' : sshStr k1 ++ [] = sshStr k2 ++ [] := by simpa using h
+  obtain ⟨e6, _⟩ := sshStr_cancel hk1 hk2 h'
+  exact ⟨e1, e2, e3, e4, e5, e6⟩
+
+example : signedData [1, 2] [97] [] [112] [] [9] =
+    [0, 0, 0, 2, 1, 2, 50, 0, 0, 0, 1, 97, 0, 0, 0, 0, 0, 0, 0, 1, 112, 1, 0, 0, 0, 0, 0, 0, 0, 1, 9] := by decide
+
 /-! ## non-vacuity: concrete histories that do succeed, one per method -/
 
 def cfgDemo : Cfg :=
@@ -199,6 +250,20 @@ example : run { cfgDemo with cbs := ⟨false, false, false, true⟩ }
     ([.sendGssResponse, .gssAccept, .gssVerifyMic, .gssDelete, .log "gssapi-with-mic" .fail,
       .sendFailure ["gssapi-with-mic"] false], .authErr) := by
   decide
+
+/-- partial_switches / callbacks_from_active_set, concretely: one iteration ending in a partial success
+    naming keyboard-interactive only — the callback set, its tag and the failure message all switch -/
+example : (match step cfgDemo (bump (St.init cfgDemo))
+      { user := "a", service := "ssh-connection", method := "password", cb := .partialOk ⟨false, false, true, false⟩ 0 } with
+    | .cont st' evs => decide (st'.cbs = ⟨false, false, true, false⟩ ∧ st'.gen = 1 ∧ st'.partialRet = true ∧ st'.cache = none ∧
+        evs.getLast? = some (.sendFailure ["keyboard-interactive"] true))
+    | .done _ _ => false) = true := by decide
+
+/-- cache_sound, concretely: after an accepted query the cache holds that decision and the log's
+    last PublicKeyCallback record is the same (user, key, outcome) -/
+example : (match step cfgDemo (bump (St.init cfgDemo)) (pkDemo true) with
+    | .cont st evs => decide (st.cache = some ⟨"a", 1, .ok, 2⟩ ∧ lastKey evs = some (0, "a", 1, .accept 2))
+    | .done _ _ => false) = true := by decide
 
 example : (run { cfgDemo with noClientAuth := true }
     [.req { user := "a", service := "ssh-connection", method := "none" }]).2 = .ok 0 := by decide
